@@ -139,6 +139,17 @@ Composition ==
          /\ TDiv(TCurl(t)) = Tag(sys, "s", <<PZero>>)
          /\ TGrad(TDiv(t)).sys = sys
 
+\* A field may carry free parameters: c * f stands for a whole family of fields, and the operators are homogeneous,
+\* whatever the parameter is called.  The harness uses symbols with the names ParamNames as coefficient - names of
+\* coordinates of the three systems and one that is no coordinate - and the values ParamValues for them afterwards.
+ParamNames  == <<"x", "y", "z", "r", "theta", "phi", "a">>
+ParamValues == <<R(2), <<-3, 2>> >>
+Homogeneous ==
+  \A i \in DOMAIN ParamValues : LET c == ParamValues[i] IN
+    IF kind = "s" THEN Grad(PScale(c, fld[1])) = VScale(c, Grad(fld[1]))
+    ELSE /\ Div(VScale(c, fld)) = PScale(c, Div(fld))
+         /\ Curl(VScale(c, fld)) = VScale(c, Curl(fld))
+
 \* mixed partial derivatives commute (what both identities rest on)
 MixedPartials == \A i \in DOMAIN fld : \A v, w \in Vars :
                    PDiff(PDiff(fld[i], v), w) = PDiff(PDiff(fld[i], w), v)
@@ -181,10 +192,10 @@ Emitted == Len(terms) <= EmitTerms /\ \A i \in DOMAIN terms : TermDeg(terms[i]) 
 Emit == Emitted =>
   PrintT(ToJson(
     IF kind = "s"
-    THEN [kind |-> "s", terms |-> terms, pts |-> Points,
+    THEN [kind |-> "s", terms |-> terms, pts |-> Points, pnames |-> ParamNames, pvals |-> ParamValues,
           grad |-> [k \in DOMAIN Points |-> VEval(Grad(fld[1]), Points[k])],
           divgrad |-> [k \in DOMAIN Points |-> PEval(Lap(fld[1]), Points[k])]]
-    ELSE [kind |-> "v", terms |-> terms, pts |-> Points,
+    ELSE [kind |-> "v", terms |-> terms, pts |-> Points, pnames |-> ParamNames, pvals |-> ParamValues,
           curlcurl |-> [k \in DOMAIN Points |-> VEval(Curl(Curl(fld)), Points[k])],
           graddiv  |-> [k \in DOMAIN Points |-> VEval(Grad(Div(fld)), Points[k])],
           div  |-> [k \in DOMAIN Points |-> PEval(Div(fld), Points[k])],
